@@ -86,9 +86,16 @@ def judge(ctx, m, tag, order=None):
         ctx.fail("C02/n_edge", "n_edge differs from the number of edge rows", inp, o, model, ["n_edge"])
     if o["n_max_face_edges"] != w:
         ctx.fail("C02/n_max_face_edges", "n_max_face_edges differs from the table width", inp, o, model, ["n_max_face_edges"])
-    if m.closed and m.n_node - o["n_edge"] + m.n_face != 2:
-        # tested clause (not a theorem): generated closed meshes are sphere tilings
-        ctx.fail("C02/euler", "n_node - n_edge + n_face != 2 on a sphere tiling", inp, o, model, ["euler"])
+    if m.closed:
+        # tested clause (not a theorem). The generator's claim "this mesh tiles the sphere" is checked
+        # against the Lean MODEL's edge count first: a mesh that is not a sphere tiling is a generator
+        # matter, never a verdict on the implementation
+        if m.n_node - len(model["edges"]) + m.n_face != 2:
+            ctx.hit("closed-flag-but-not-a-sphere-tiling(generator)")
+        elif m.n_node - o["n_edge"] + m.n_face != 2:
+            ctx.fail("C02/euler", "n_node - n_edge + n_face != 2 on a sphere tiling", inp, o, model, ["euler"])
+        else:
+            ctx.hit("euler-checked")
     # correspondence with the model up to edge numbering
     ci, cm = canon(o["edges"], o["faceEdges"]), canon(model["edges"], model["faceEdges"])
     if ci != cm or o["nPerFace"] != model["nPerFace"]:
